@@ -1,0 +1,16 @@
+//go:build verif
+
+package encoding
+
+import "storj.io/drpc"
+
+// Verification hooks (build tag `verif` only, property C11): access to the unexported snappy encoding.
+// No behaviour is added or changed.
+
+func VerifSnappyUnmarshal(buf []byte, msg drpc.Message) error {
+	return defaultSnappyEncoding.Unmarshal(buf, msg)
+}
+
+func VerifSnappyMarshal(msg drpc.Message) ([]byte, error) {
+	return defaultSnappyEncoding.Marshal(msg)
+}
